@@ -200,22 +200,28 @@ pub(crate) mod verif_fd1 {
         Err(FrameDecoderError::NotYetInitialized)
     }
 
+    /// keeps core's formatting machinery (dyn Debug dispatch) out of the proof; still a failing check if it is ever reached
+    fn stub_unwrap_failed(_msg: &str, _error: &dyn core::fmt::Debug) -> ! {
+        panic!("Result::unwrap()/expect() on an Err value")
+    }
+
     /// FD2: decode_from_to over a source slice: consumed <= given, consumed == counter delta, a block is consumed only if entirely present,
     /// a checksum-only call consumes 4 bytes iff 4 are present (else 0)
     #[cfg(kani)]
     #[kani::proof]
-    #[kani::unwind(5)]
+    #[kani::unwind(3)]
     #[kani::stub(crate::decoding::block_decoder::BlockDecoder::read_block_header, crate::decoding::block_decoder::verif_fd1b::stub_read_block_header)]
     #[kani::stub(crate::decoding::block_decoder::BlockDecoder::decode_block_content, crate::decoding::block_decoder::verif_fd1b::stub_decode_block_content)]
     #[kani::stub(<crate::decoding::frame_decoder::FrameDecoder as crate::io::Read>::read, stub_fd_read)]
     #[kani::stub(FrameDecoder::init, stub_fd_init)]
+    #[kani::stub(core::result::unwrap_failed, stub_unwrap_failed)]
     fn fd2_decode_from_to() {
         script();
-        unsafe { S_OUT = [0; NB]; S_HERR = [false; NB]; S_BERR = [false; NB]; S_LAST[1] = true; }
+        unsafe { S_OUT = [0; NB]; S_HERR = [false; NB]; S_BERR = [false; NB]; S_LAST[0] = true; }
         let flag: bool = kani::any();
-        let src: [u8; 18] = kani::any();
+        let src: [u8; 12] = kani::any();
         let len: usize = kani::any();
-        kani::assume(len <= 18);
+        kani::assume(len <= 12);
         let mut d = FrameDecoder::new();
         let mut st0 = state(flag);
         let pending_checksum: bool = kani::any(); // the previous call ended right before the checksum
@@ -239,7 +245,7 @@ pub(crate) mod verif_fd1 {
             }
         } else {
             let mut i = 0;
-            while i < 2 {
+            while i < 1 {
                 if len - pos < 3 { break; }
                 let body = unsafe { S_BODY[i] } as usize;
                 if len - pos - 3 < body { break; } // block not entirely present: not consumed at all
@@ -263,5 +269,5 @@ pub(crate) mod verif_fd1 {
 }
 //@end
 //@harness fd1_decode_blocks kind=proof fn=FrameDecoder::decode_blocks props=C10,C06,C05,C03 tier=quick bound="<= 3 blocks per call, block bodies <= 4 bytes, source <= 20 bytes (every truncation point)" timeout=2400
-//@harness fd2_decode_from_to kind=proof fn=FrameDecoder::decode_from_to props=C06,C10,C03 tier=quick bound="<= 2 blocks per call, block bodies <= 4 bytes, source <= 18 bytes" timeout=2400
+//@harness fd2_decode_from_to kind=proof fn=FrameDecoder::decode_from_to props=C06,C10,C03 tier=quick bound="one block per call (the last one), block body <= 4 bytes, source <= 12 bytes, plus the checksum-only call" timeout=2400
 //@assume in fd1_/fd2_ harnesses BlockDecoder::read_block_header and ::decode_block_content are contract stubs handing out scripted (symbolic) blocks; their own contracts are H1 and B1; DecodeBuffer::len is a ghost counter in fd1_decode_blocks
